@@ -555,7 +555,11 @@ func genMRecs(r *rand.Rand, n int) []LRec {
 			rec.Attrs = append(rec.Attrs, [2]string{l, pick(r, mLabelVal)})
 		}
 		if r.Intn(5) != 0 {
-			rec.Attrs = append(rec.Attrs, [2]string{"v", pick(r, []string{"1", "2", "3", "5", "0.5", "10", "-2", "x"})})
+			v := pick(r, []string{"1", "2", "3", "5", "0.5", "10", "-2", "x"})
+			if r.Intn(12) == 0 {
+				v = pick(r, lgHostileNums)
+			}
+			rec.Attrs = append(rec.Attrs, [2]string{"v", v})
 		}
 		if r.Intn(3) == 0 {
 			rec.Attrs = append(rec.Attrs, [2]string{"sz", pick(r, []string{"1KB", "10B", "1KiB", "junk"})})
